@@ -716,6 +716,7 @@ def run_Q5(chk):
                             f"boundary, without testing it: the lattice lists a bond with a missing end (not a pair of nearest neighbours)")
 
 MUTANTS = [
+    ('neighbourhood flag overwritten at every site', [('yastn/tn/fpeps/_geometry.py', '            label_sites, label_envs = {}, {}\n', '            label_sites, label_envs, same_envs = {}, {}, True\n'), ('yastn/tn/fpeps/_geometry.py', '                    if label in label_sites:\n                        label_sites[label].append(Site(nx, ny))\n                        label_envs[label].append(env)\n                    else:\n                        label_sites[label] = [Site(nx, ny)]\n                        label_envs[label] = [env]\n        except TypeError:\n            raise YastnError("RectangularUnitcell: pattern labels should be hashable.")\n        if any(len(set(envs)) > 1 for envs in label_envs.values()):', '                    label_sites.setdefault(label, []).append(Site(nx, ny))\n                    same_envs = label_envs.setdefault(label, env) == env\n        except TypeError:\n            raise YastnError("RectangularUnitcell: pattern labels should be hashable.")\n        if not same_envs:')], 'Q4'),
     ('diagonal bonds kept as a list', 'yastn/tn/fpeps/_geometry.py', '            self._bonds_d = tuple(bonds_d)', '            self._bonds_d = bonds_d', 'Q5'),
     ('f_ordered by linear index', 'yastn/tn/fpeps/_geometry.py', '        return s0[1] < s1[1] or (s0[1] == s1[1] and s0[0] <= s1[0])', '        return s0[1] * self.Nx + s0[0] <= s1[1] * self.Nx + s1[0]', 'Q6'),
     ('move_to_patch bypasses the patch', 'yastn/tn/fpeps/_geometry.py', '            self._patch[site] = self[site].shallow_copy()', '            self._patch[site] = self._site_data[self.site2index(site)].shallow_copy()', 'Q7'),
